@@ -24,12 +24,16 @@ var c12Configs = []Config{
 	{KM: "memkm", CA: "localca", ViaCLI: true},
 	{KM: "gcpkms", CA: "gcsca", ViaCLI: true},
 	{KM: "gcpkms", CA: "memca", ViaCLI: true},
+	// one long-lived process serving every command (library calls)
+	{KM: "memkm", CA: "gcsca", LongLived: true},
+	{KM: "gcpkms", CA: "gcsca", LongLived: true},
+	{KM: "memkm", CA: "memca", LongLived: true},
 }
 
 func init() {
 	core.Register(&core.Check{
 		ID: "C12", World: "A (authority lifecycle)", Level: "exploration",
-		Rule: "one evaluation = one seeded command history (<= 8 quick / 12 thorough commands over {bootstrap, rotate, wipeout ca|keys|all}) executed through the real cobra commands, one fresh app per command, with drawn common names, serials, overrides (absent/fresh/colliding), timestamps (forward and backward inside the root's validity), --overwrite, --keep_going, over each shipped key manager x certificate authority; " +
+		Rule: "one evaluation = one seeded command history (<= 8 quick / 12 thorough commands over {bootstrap, rotate, wipeout ca|keys|all}) executed through the real cobra commands, one fresh app per command (or, for three configurations, through the library calls of one long-lived process), with drawn common names, serials, overrides (absent/fresh/colliding), timestamps (forward and backward inside the root's validity), --overwrite, --keep_going, over each shipped key manager x certificate authority; " +
 			"all chain-of-trust invariants are evaluated after EVERY command on state read back through a fresh authority; non-trivial = at least 2 state-changing commands succeeded; distinct by abstract-state sequence",
 		Assumptions: []string{
 			"an epoch (for name reuse and 'only the current primary can sign') starts at a wipeout of any kind or at a successful bootstrap; a re-bootstrap needs --overwrite, which is the operator's permission to replace existing keys",
@@ -59,6 +63,12 @@ type c12Model struct {
 	staleDER    []byte
 	staleShape  string
 	keysWiped   bool // a `wipeout keys|all` succeeded since the last successful bootstrap
+}
+
+// hugeSerial draws a serial number beyond 64 bits (legal: serials are arbitrary-precision).
+func hugeSerial(r *core.Run) *big.Int {
+	z := new(big.Int).Lsh(big.NewInt(1), uint(64+r.Intn(24, "serial-bits")))
+	return z.Add(z, big.NewInt(int64(40+r.Intn(10, "serial-low"))))
 }
 
 func subjectSerial(c *x509.Certificate) *big.Int {
@@ -132,6 +142,9 @@ func runC12(r *core.Run) {
 			if r.Chance(30, "init-serial?") {
 				b.SignSerial = int64(20 + r.Intn(3, "init-serial"))
 			}
+			if r.Chance(8, "huge-init-serial?") {
+				b.SignSerialBig = hugeSerial(r)
+			}
 			desc = fmt.Sprintf("bootstrap(ow=%v,kg=%v,rcn=%q,scn=%q,rs=%d,ss=%d)", f.Overwrite, f.KeepGoing, b.RootCN, b.SignCN, b.RootSerial, b.SignSerial)
 			err, _ = a.Bootstrap(b)
 			made = "boot"
@@ -146,8 +159,11 @@ func runC12(r *core.Run) {
 					ra.SerialOverride = m.prevSerial.Int64()
 				}
 			}
-			overridden = ra.SerialOverride != 0
-			desc = fmt.Sprintf("rotate(ow=%v,kg=%v,scn=%q,serial=%d)", f.Overwrite, f.KeepGoing, ra.SignCN, ra.SerialOverride)
+			if r.Chance(6, "huge-serial-override?") {
+				ra.SerialBig = hugeSerial(r)
+			}
+			overridden = ra.SerialOverride != 0 || ra.SerialBig != nil
+			desc = fmt.Sprintf("rotate(ow=%v,kg=%v,scn=%q,serial=%d,big=%v)", f.Overwrite, f.KeepGoing, ra.SignCN, ra.SerialOverride, ra.SerialBig)
 			err, _ = a.Rotate(ra)
 			made = "rot"
 		default:
